@@ -247,6 +247,20 @@ func genDataset(r *vk.RNG, format string, n int, t0 int64) *Dataset {
 				}
 			}
 			line = string(lb)
+			// Docker keeps line terminators in the message and a record may span several lines: anchors
+			// of a regex line filter refer to the whole record, not to its lines
+			if r.Chance(1, 5) {
+				ws := strings.Split(line, " ")
+				if len(ws) > 2 {
+					k := r.Range(1, len(ws)-1)
+					line = strings.Join(ws[:k], " ") + "\n" + strings.Join(ws[k:], " ")
+				}
+				if r.Bool() {
+					line += "\n"
+				}
+			} else if r.Chance(1, 6) {
+				line += vk.Pick(r, []string{"\n", "\r\n"})
+			}
 		}
 		d.Recs = append(d.Recs, Rec{TS: ts, Line: line, Labels: labels})
 	}
@@ -299,7 +313,7 @@ func genSelMatchers(r *vk.RNG, n int) []selMatcher {
 	return ms
 }
 
-var lineRegexes = []string{"r1[0-9]?", "(?i)error", "^r", `\d+$`, "GET|POST", "a.b", `\(x\)`, "", "x*", "tim(e|ing)out", `"level":"(warn|error)"`, "level=e", `[[:alpha:]]+ - `, `\x00?r2`}
+var lineRegexes = []string{`^\s*$`, `^$`, `ok$`, `^(GET|POST|error|ok)`, `[a-z]$`, "r1[0-9]?", "(?i)error", "^r", `\d+$`, "GET|POST", "a.b", `\(x\)`, "", "x*", "tim(e|ing)out", `"level":"(warn|error)"`, "level=e", `[[:alpha:]]+ - `, `\x00?r2`}
 
 func genLineFilter(r *vk.RNG, d *Dataset, undecided *int) Stage {
 	// ip() line filters only where the harness knows every address of a line (whitespace-delimited tokens)
